@@ -143,6 +143,7 @@ class Program:
         self.modules = {}
         self.unparsed = {}
         self.consulted = set()
+        self.renamed = []     # (relpath, function, {current local name: reference name})
         self._load()
         self._index()
 
@@ -167,6 +168,9 @@ class Program:
                 except SyntaxError as e:
                     self.unparsed[relpath] = str(e)
                     continue
+                # locals renamed towards the reference naming (alpha-equivalent; see refnames.py)
+                from . import refnames
+                refnames.apply_to_tree(tree, relpath, self.renamed)
                 self.modules[name] = Module(name, path, relpath, src, tree, is_pkg)
 
     def _index(self):
